@@ -24,6 +24,7 @@ type specCtx struct {
 	entryNames  bool // identifiers denote entry values of parameters (requires / old)
 	calleeOnly  bool // contract of another function: only binds, results and ghosts are visible
 	oldIsPre    bool // old() refers to ctx.old as a whole (pre-call state) and keeps caller locals
+	paramsEntry bool // postconditions: parameter names denote their values at entry
 }
 
 func (g *Gen) evalBool(ctx *specCtx, e Expr) string {
@@ -205,7 +206,7 @@ func (g *Gen) evalIdent(ctx *specCtx, name string) Val {
 		}
 		g.unsupported("unknown identifier " + name + " in callee contract")
 	}
-	if ctx.entryNames {
+	if ctx.entryNames || ctx.paramsEntry {
 		if v, ok := g.paramVals[name]; ok {
 			return v
 		}
@@ -495,6 +496,27 @@ func (g *Gen) evalCall(ctx *specCtx, x *ECall) Val {
 		g.nfresh++
 		j := fmt.Sprintf("j!q%d", g.nfresh)
 		return BoolV{fmt.Sprintf("(forall ((%s Int)) (! (=> (and (<= %s %s) (< %s (+ %s %s))) (not (= (select %s %s) %s))) :pattern ((select %s %s))))", j, so, j, j, so, l, blk, j, c, blk, j)}
+	case "increasing":
+		// increasing(s): strictly increasing integer sequence
+		s := arg(0)
+		blk, so, l := g.seqBlock(ctx, s)
+		g.nfresh++
+		j1, j2 := fmt.Sprintf("j!q%da", g.nfresh), fmt.Sprintf("j!q%db", g.nfresh)
+		return BoolV{fmt.Sprintf("(forall ((%s Int) (%s Int)) (! (=> (and (<= %s %s) (< %s %s) (< %s (+ %s %s))) (< (select %s %s) (select %s %s))) :pattern ((select %s %s) (select %s %s))))", j1, j2, so, j1, j1, j2, j2, so, l, blk, j1, blk, j2, blk, j1, blk, j2)}
+	case "nondecreasing":
+		s := arg(0)
+		blk, so, l := g.seqBlock(ctx, s)
+		g.nfresh++
+		j1, j2 := fmt.Sprintf("j!q%da", g.nfresh), fmt.Sprintf("j!q%db", g.nfresh)
+		return BoolV{fmt.Sprintf("(forall ((%s Int) (%s Int)) (! (=> (and (<= %s %s) (< %s %s) (< %s (+ %s %s))) (<= (select %s %s) (select %s %s))) :pattern ((select %s %s) (select %s %s))))", j1, j2, so, j1, j1, j2, j2, so, l, blk, j1, blk, j2, blk, j1, blk, j2)}
+	case "allrange":
+		// allrange(s, lo, hi): lo <= s[k] < hi for all k
+		s := arg(0)
+		lo, hi := g.evalInt(ctx, x.Args[1]), g.evalInt(ctx, x.Args[2])
+		blk, so, l := g.seqBlock(ctx, s)
+		g.nfresh++
+		j := fmt.Sprintf("j!q%d", g.nfresh)
+		return BoolV{fmt.Sprintf("(forall ((%s Int)) (! (=> (and (<= %s %s) (< %s (+ %s %s))) (and (<= %s (select %s %s)) (< (select %s %s) %s))) :pattern ((select %s %s))))", j, so, j, j, so, l, lo, blk, j, blk, j, hi, blk, j)}
 	case "allchr":
 		// allchr(s, lo, hi): every byte c of s satisfies lo <= c <= hi
 		s := arg(0)
@@ -503,6 +525,26 @@ func (g *Gen) evalCall(ctx *specCtx, x *ECall) Val {
 		g.nfresh++
 		j := fmt.Sprintf("j!q%d", g.nfresh)
 		return BoolV{fmt.Sprintf("(forall ((%s Int)) (! (=> (and (<= %s %s) (< %s (+ %s %s))) (and (<= %s (select %s %s)) (<= (select %s %s) %s))) :pattern ((select %s %s))))", j, so, j, j, so, l, lo, blk, j, blk, j, hi, blk, j)}
+	case "unchanged":
+		// unchanged(s): the elements of s hold what they held in the old state
+		sv, ok := arg(0).(SliceV)
+		if !ok {
+			g.unsupported("unchanged() of non-slice")
+		}
+		lv := g.leaves(sv.Elem)
+		if len(lv) != 1 {
+			g.unsupported("unchanged() on slice of non-scalars")
+		}
+		key := heapKey(typeKey(sv.Elem), nil, lv[0].suffix)
+		srt := nestSort(2, lv[0].sort)
+		now := g.nameTerm("(select "+g.heapTerm(ctx.st, key, srt)+" "+sv.Ref+")", "(Array Int "+lv[0].sort+")")
+		was := g.nameTerm("(select "+g.heapTerm(ctx.old, key, srt)+" "+sv.Ref+")", "(Array Int "+lv[0].sort+")")
+		if now == was {
+			return BoolV{"true"}
+		}
+		g.nfresh++
+		j := fmt.Sprintf("j!q%d", g.nfresh)
+		return BoolV{fmt.Sprintf("(forall ((%s Int)) (! (=> (and (<= %s %s) (< %s (+ %s %s))) (= (select %s %s) (select %s %s))) :pattern ((select %s %s))))", j, sv.Off, j, j, sv.Off, sv.Len, now, j, was, j, now, j)}
 	case "disjoint":
 		a, b := arg(0).(SliceV), arg(1).(SliceV)
 		return BoolV{not(eq(a.Ref, b.Ref))}
